@@ -7,7 +7,7 @@ import os
 import re
 
 from vf.extract import match_brace, ExtractError
-from vf.unit import Unit, normalize_let_chains, uniter_collect
+from vf.unit import Unit, normalize_let_chains, uniter_collect, drop_capacity_hints
 from units.mmcs import SPEC as MMCS_SPEC
 from units.vbatch import SPEC as VB_SPEC
 
@@ -79,6 +79,7 @@ def build():
     u.text(SPEC)
     M = 'recursion/src/pcs/mmcs.rs'
     v = u.extract(M, '', 'verify_batch_circuit_from_extension_opened', 'verify_batch_circuit_from_extension_opened')
+    drop_capacity_hints(v)
     v.set_sig('R11', 'fn verify_batch_circuit_from_extension_opened<EF: FieldX>(circuit: &mut CircuitBuilder<EF>, permutation_config: PermConfig, commitment_cap: &[Vec<Target>], dimensions: &[Dimensions], index_bits: &[Target], '
                      'opened_extension_values: &[Vec<Target>], salts: Option<&[Vec<Target>]>) -> Result<Vec<NonPrimitiveOpId>, CircuitBuilderError>')
     v.rewrite_re('R11', r'let permutation_config: PermConfig = permutation_config\.into\(\);', '', min_count=1)
